@@ -128,13 +128,13 @@ func buildUniverse() []Obj {
 // ---- seeded small universes ------------------------------------------------
 
 var numFamilies = [][]Obj{
-	{fix(1), num("single", "1.0"), num("double", "1.0"), num("long", "1.0")},
+	{fix(1), num("single", "1.0"), num("double", "1.0"), num("long", "1.0"), num("bit", "1")},
 	{num("ratio", "1/2"), num("single", "0.5"), num("double", "0.5"), num("long", "0.5")},
 	{fix(2), num("double", "2.0"), num("single", "2.0")},
 	{fix(-3), num("single", "-3.0"), num("long", "-3.0")},
 	{num("big", p70), num("double", p70+".0"), num("long", p70+".0")},
 	{num("ratio", "3/4"), num("double", "0.75"), num("single", "0.75")},
-	{fix(0), num("double", "0.0"), num("single", "0.0")},
+	{fix(0), num("double", "0.0"), num("single", "0.0"), num("bit", "0")},
 	{fix(10), num("long", "10.0"), num("double", "10.0")},
 	{num("ratio", "-7/8"), num("double", "-0.875")},
 	{num("big", "-"+p64), num("double", "-"+p64+".0")},
@@ -193,7 +193,7 @@ var charFamilies = [][]Obj{
 }
 
 var symFamilies = [][]Obj{
-	{sym("a")}, {sym("b")}, {sym("foo")}, {key("a")}, {key("foo")}, {objNil}, {objT},
+	{sym("a")}, {sym("b")}, {sym("foo")}, {key("a")}, {key("foo")}, {objNil, {K: "nil", V: "(list)"}, {K: "nil", V: "(cdr (list 1))"}}, {objT},
 }
 
 var allFamilies = func() [][]Obj {
